@@ -10,6 +10,11 @@
     that what happens with non-distinct keys is what the code does: the second
     `pending[k] = call` overwrites, and the first caller's `delete` on timeout
     removes the second caller's entry.)
+  * `MesosCommandBase.MakeSingleTarget` → `singleTarget`; `commit`'s
+    `singleCommand := command.MakeSingleTarget(receiver)` → `callCmd`: the object
+    whose id makes the key (`keyOf?`), that the send function is handed and whose
+    response timeout arms the timer (`timerOf`). Durations are labels: the model
+    has no clock, `timeout` is a step that is enabled whenever a caller waits.
   * `Servent.RunCommand` (one goroutine per target, spawned by `commit`):
         register            s.pending[callId] = call           (under s.mu)
         sendOk | sendFail   err := s.SendFunc(cmd, receiver);  on error: delete + return (nil, err)
@@ -76,24 +81,57 @@ structure CallSt where
   mailbox : Option Resp
 deriving DecidableEq, Repr
 
-/-- A command: its id and `TargetList`. -/
+/-- A command (`MesosCommandBase`): its id, `TargetList`, `ResponseTimeout`
+    (a label: milliseconds; the model has no clock) and `argMap` (per-target
+    arguments, target ↦ token ≥ 1; a target without a binding gets the empty
+    map, written 0). -/
 structure Cmd where
   id : Nat
   targets : List Nat
+  tmo : Nat := 0
+  args : List (Nat × Nat) := []
 deriving DecidableEq, Repr
+
+/-- `m.argMap[receiver]`, the empty map (0) when there is no binding. -/
+def argOf (c : Cmd) (t : Nat) : Nat :=
+  match c.args.find? (fun e => e.1 == t) with
+  | some e => e.2
+  | none => 0
+
+/-- `MesosCommandBase.MakeSingleTarget(receiver)`: nil for a receiver that is
+    not in the target list; otherwise the SAME command — name, id, environment,
+    response timeout — narrowed down to that receiver, carrying that receiver's
+    arguments (`argMap = {receiver: args}`, `Arguments = argMap[receiver]`). -/
+def singleTarget (c : Cmd) (t : Nat) : Option Cmd :=
+  if c.targets.contains t then
+    some { id := c.id, targets := [t], tmo := c.tmo, args := [(t, argOf c t)] }
+  else none
 
 /-- A caller = (index of the command, position in its target list). -/
 abbrev Ref := Nat × Nat
 
-/-- The key a caller registers: `CallId{cmd.GetId(), receiver}`; `none` for a
-    reference that names no goroutine of the configuration. -/
-def keyOf? (cmds : List Cmd) (i : Ref) : Option CallId :=
+/-- What `commit`'s goroutine for a target hands to `Servent.RunCommand`:
+    `singleCommand := command.MakeSingleTarget(receiver)` and `receiver`. This
+    object is the `cmd` of `RunCommand`: its id makes the key, it is what the
+    send function receives, and its response timeout arms the timer
+    (`time.After(cmd.GetResponseTimeout())`). -/
+def callCmd (cmds : List Cmd) (i : Ref) : Option (Cmd × Nat) :=
   match cmds[i.1]? with
   | some c =>
     match c.targets[i.2]? with
-    | some t => some ⟨c.id, t⟩
+    | some t => (singleTarget c t).map (fun sc => (sc, t))
     | none => none
   | none => none
+
+/-- The key a caller registers: `CallId{cmd.GetId(), receiver}` with `cmd` the
+    single-target command; `none` for a reference that names no goroutine of
+    the configuration. -/
+def keyOf? (cmds : List Cmd) (i : Ref) : Option CallId :=
+  (callCmd cmds i).map (fun x => ⟨x.1.id, x.2⟩)
+
+/-- The duration of the timer caller `i` selects on. -/
+def timerOf (cmds : List Cmd) (i : Ref) : Option Nat :=
+  (callCmd cmds i).map (fun x => x.1.tmo)
 
 inductive ErrKind where
   | send
